@@ -183,6 +183,10 @@ EXTRA = {
     "C05": _ACC + "centers_hz (the inner vertices in order / the centres the constructor laid out), supports_hz (pair k = vertices k and k+2), num_filts, "
                   "sampling_rate, scaled_l2_norm, erb, order of all four banks.",
     "C07": _ACC + "is_real, is_analytic, is_zero_phase, supports, supports_hz of all four banks and the base class's supports_ms.",
+    "C08": " Nested components: for every constructor that accepts one (the three computers' bank and window, the three banks' scaling function) an "
+           "AST-level data-flow obligation set shows that exactly the caller's argument goes to alias_factory_subclass_from_arg with the documented "
+           "family, that the result replaces the argument before any other use and is never rebound, and that the optional window defaults to "
+           "GammaWindow for the causal style and HannWindow otherwise.",
     "C11": " The SPHERE clause goes through the same reader functions as C12: copy_samples (all five codings) and sphere_read_signal are under "
            "contract for C11 as well (replayed by the C12 stand-in); the stand-in also writes data sections longer than the reader's 16 KiB block "
            "with 3-7 channels.",
